@@ -187,6 +187,16 @@ class _FakeSock:
     def recv(self, n, *flags):
         return self.net.recv(n)
 
+    def recv_into(self, buffer, nbytes=0, *flags):
+        # same stream, same fragmentation: at most nbytes (0 = the whole buffer) are stored at the start of `buffer`
+        mv = memoryview(buffer).cast('B')
+        n = nbytes or len(mv)
+        if n > len(mv):
+            raise ValueError('buffer too small for requested bytes')
+        got = self.net.recv(n)
+        mv[:len(got)] = got
+        return len(got)
+
     def shutdown(self, how):
         pass
 
